@@ -94,6 +94,12 @@ fn deduct_max_fee_from_base_asset(
     base_asset_id: &AssetId,
     max_fee: Word,
 ) -> Result<(), ValidityError> {
+    // Without a fee and without a base asset input there is nothing to deduct. Don't
+    // create an empty base asset entry: together with `max_inputs` inputs of other
+    // assets it would not fit into the VM's balance table.
+    if max_fee == 0 && !non_retryable_balances.contains_key(base_asset_id) {
+        return Ok(())
+    }
     let base_asset_balance = non_retryable_balances.entry(*base_asset_id).or_default();
     *base_asset_balance = base_asset_balance.checked_sub(max_fee).ok_or(
         ValidityError::InsufficientFeeAmount {
